@@ -1,3 +1,5 @@
+//go:build !verifsched
+
 package props
 
 import (
@@ -35,8 +37,10 @@ func init() {
 			}
 			return append(u, "fixtures", "multireader")
 		},
-		Run:    c01Run,
-		Bound:  func(tier string) map[string]any { return map[string]any{"max_sections": c01MaxSecs(tier), "flip_masks": c01Masks(tier)} },
+		Run: c01Run,
+		Bound: func(tier string) map[string]any {
+			return map[string]any{"max_sections": c01MaxSecs(tier), "flip_masks": c01Masks(tier)}
+		},
 		Budget: dur(4*time.Minute, 30*time.Minute),
 	})
 }
